@@ -398,11 +398,32 @@ func (ctx *EvalCtx) ident(name string) CV {
 		// execution keeps it; it is meaningful only under the branch condition, which the clause has to
 		// state). The innermost (latest declared) variable of that name wins.
 		var best *ssa.DebugRef
+		// a variable of the same name declared after the loop (a later loop's range variable) is not meant: when some
+		// definition of the name lies inside this loop's body, only those count
+		var thisLoop *loopInfo
+		if ctx.block != nil {
+			thisLoop = ctx.frame.loops[ctx.block]
+		}
+		inBody := func(d *ssa.DebugRef) bool {
+			in, ok := d.X.(ssa.Instruction)
+			return ok && thisLoop != nil && thisLoop.body[in.Block()]
+		}
+		anyInBody := false
+		for _, d := range ctx.frame.debug[name] {
+			if _, isVar := d.Object().(*types.Var); isVar && !d.IsAddr && inBody(d) {
+				if _, ok := ctx.frame.env[d.X]; ok {
+					anyInBody = true
+				}
+			}
+		}
 		for _, d := range ctx.frame.debug[name] {
 			if _, isVar := d.Object().(*types.Var); !isVar || d.IsAddr {
 				continue
 			}
 			if _, ok := ctx.frame.env[d.X]; !ok {
+				continue
+			}
+			if anyInBody && !inBody(d) {
 				continue
 			}
 			if best == nil || d.Object().Pos() > best.Object().Pos() || (d.Object().Pos() == best.Object().Pos() && d.Pos() > best.Pos()) {
